@@ -20,6 +20,7 @@ func init() {
 			"R20.4 every field referenced by the built-in templates exists in the options struct it is executed with. " +
 			"R20.3 also: SpecURL is only ever set from an option argument, copied, or defaulted when empty — never rewritten. " +
 			"R20.1 also: the page is rendered into a buffer created by that very construction; R20.3 also: the spec document name is stored verbatim. " +
+			"R20.1 also: the serving closures capture no reader or buffer (no shared read position); R20.3 also: the common options are decoded into the flavour's options in place, the target is never replaced as a whole. " +
 			"NOT decided: the text html/template emits; behaviour of path.Clean/url.Parse.",
 		Run: runC20,
 	})
